@@ -4,7 +4,7 @@ package shimagent
 //vsym:include shim/world.go
 //vsym:entry H08_locked
 //vsym:entry H08_unlock
-//vsym:replay none
+//vsym:replay same-harness
 //vsym:expect-cover C08.locked-list-empty C08.locked-op-refused C08.wrong-passphrase C08.right-passphrase-restores C08.unlock-when-unlocked C08.lock-refused-upstream C08.unlock-refused-upstream
 //vsym:bound H08_locked: pre-state with 0..1 in-memory certificates (valid window) and 0..2 upstream identities; passphrase of 0..2 symbolic bytes; after a successful Lock one operation out of List, Sign, SignWithFlags, Signers, Add, Remove, RemoveAll, AddHardCert, Lock, Close
 //vsym:bound H08_unlock: Lock(p) then Unlock(q) with p, q symbolic of equal or different length 0..2; the underlying agent may refuse the lock or the unlock
@@ -27,10 +27,10 @@ func h08World() (*Server, *mwUpstream, []*ssh.Certificate) {
 	nu := vChoose(3, "upstream")
 	for i := 0; i < nu; i++ {
 		if i == 0 {
-			up.ids = append(up.ids, &mwIdent{format: mwKeyFormat, blob: []byte{'k', 1}, comment: "k"})
+			mwUpKey(up, 1, "k")
 		} else {
 			c := mwNewCert(1, 0, 1<<64-1, vChoose(2, "up-decodes") == 1)
-			up.ids = append(up.ids, &mwIdent{format: mwCertFormat, blob: mwCertMarshal(c), comment: "c"})
+			mwUpCert(up, c, "c")
 		}
 	}
 	return s, up, mem
@@ -63,7 +63,7 @@ func H08_locked() {
 	nc, ncache, ids := h08Snapshot(s, up)
 	calls := up.calls
 	op := vChoose(10, "operation")
-	var key ssh.PublicKey = &mwKey{id: 1}
+	var key ssh.PublicKey = mwPlainKey(1)
 	if len(mem) > 0 && vChoose(2, "target-is-cert") == 1 {
 		key = mem[0]
 	}
